@@ -151,3 +151,49 @@ def guard_shapes(fn, bb, operand_roots, depth=2):
         pol = "T" if taken == "else" and t.get("opty") == "bool" else "F" if taken == 0 and t.get("opty") == "bool" else str(taken)
         out.append("%s=%s" % (shape(fn, cond, depth), pol))
     return sorted(set(out))
+
+
+def reach_with_bools(fn, start, env=None, limit=4000):
+    """blocks reachable from `start` when boolean temporaries that were assigned a constant on the way are respected at the
+    switches that test them (the lowering of `matches!(..)` / `a || b`: arm blocks set a flag, a later block branches on it).
+    Forward exploration over (block, known-constant-locals); anything not a constant assignment forgets the local."""
+    from .facts import op_const, op_place
+    seen = set()
+    out = set()
+    work = [(start, tuple(sorted((env or {}).items())))]
+    while work and len(seen) < limit:
+        bb, e = work.pop()
+        if (bb, e) in seen:
+            continue
+        seen.add((bb, e))
+        out.add(bb)
+        known = dict(e)
+        blk = fn.blocks[bb]
+        for st in blk["stmts"]:
+            l = st["lhs"]
+            if l["p"]:
+                continue
+            c = op_const(st["rv"].get("a")) if st["rv"]["k"] == "use" else None
+            if c is not None and c.get("ty") == "bool" and "int" in c:
+                known[l["l"]] = 1 if c["int"] else 0
+            elif st["rv"]["k"] == "use" and op_place(st["rv"]["a"]) is not None and not op_place(st["rv"]["a"])["p"] \
+                    and op_place(st["rv"]["a"])["l"] in known:
+                known[l["l"]] = known[op_place(st["rv"]["a"])["l"]]
+            else:
+                known.pop(l["l"], None)
+        t = blk["term"]
+        if t["k"] == "call" and not t["dest"]["p"]:
+            known.pop(t["dest"]["l"], None)
+        succs = None
+        if t["k"] == "switch":
+            pl = op_place(t["op"])
+            if pl is not None and not pl["p"] and pl["l"] in known:
+                v = known[pl["l"]]
+                tg = dict((a, b) for a, b in t["targets"]).get(v, t["otherwise"])
+                succs = [tg]
+        if succs is None:
+            succs = [x for x in fn.succ[bb] if not fn.is_cleanup(x)]
+        ne = tuple(sorted(known.items()))
+        for x in succs:
+            work.append((x, ne))
+    return out
